@@ -72,6 +72,26 @@ def run(ctx, replay=None):
     for i in range(1 if quick else 3):
         ctx.drv(["c11", "exec", os.path.join(gdir, "monadio.ndjson"), "--out", tf], timeout=2400)
         lines = judge(ctx, tla, tf, "case")
+    # overlapping evaluations of one monad, and reconfiguration while an evaluation is in flight
+    cf2 = os.path.join(ctx.scratch, "c11.conc.ndjson")
+    ctx.drv(["c11", "conc", "--out", cf2, "--repeat", 3 if quick else 40], timeout=900)
+    r2 = ctx.tlc("Trace_MonadIOConc", workers=1, timeout=600, cwd=tla, env_extra={"VERIF_TRACE": cf2})
+    cons = r2.printed("CONSUMED")
+    if not cons:
+        core.log(r2.text[-2000:])
+        raise core.Inconclusive("Trace_MonadIOConc did not finish")
+    a, b = [int(x) for x in cons[-1].split(",")]
+    rows = core.read_ndjson(cf2)
+    if a != b and len(r2.printed("MISMATCH")) < 60:
+        raise core.Inconclusive("Trace_MonadIOConc consumed %d of %d lines" % (a, b))
+    ctx.cov["evaluations"] += a
+    ctx.cov["traces_validated_against_impl"] += a
+    for x in r2.printed("MISMATCH"):
+        e = rows[int(x.split(",")[0]) - 1]
+        what = "overlapping Subscribes of one monad: the deliveries are not each evaluation's own value exactly once" if e["part"] == "conc" else \
+            "a subscription did not keep the handlers it was made under when the monad was reconfigured during its evaluation"
+        ctx.report("%s obOn=%s subOn=%s kind=%s" % (e["part"], e["obOn"], "h2" if e["part"] == "conc" else "h2->" + e["newSub"], e["kind"]),
+                   "%s: effects %s, deliveries %s" % (what, json.dumps(e["effects"]), json.dumps(e["delivered"])), {"component": "c11-conc", "run": e})
     ctx.cov["cases_generated_by_tlc"] = ncases
     ctx.cov["distinct_nontrivial"] = ncases - nprogs * 2
     ctx.sample(lines[len(lines) // 2])
